@@ -41,7 +41,7 @@ def closed_case(draw, mode):
     shapes = [sh for sh, _ in St.leaves(S)]
     forms = ['hom', 'id']
     if all(len(s) >= 1 for s in shapes):
-        forms += ['diag', 'diag', 'diag0', 'diag0']
+        forms += ['diag', 'diag', 'diag0', 'diag0', 'diag_tiny']
     if S['t'] == 'stokes':
         forms += ['rot', 'rot', 'rotT']
     if S['t'] in ('tuple', 'list', 'dict'):
@@ -61,6 +61,16 @@ def closed_case(draw, mode):
             if v.size and not (v == 0).any():
                 v.reshape(-1)[draw(st.integers(0, v.size - 1))] = 0.0
             r['vals'] = v.tolist()
+    elif f == 'diag_tiny':
+        # non-zero entries of very small / very large magnitude (they are NOT zeros: the pseudo-inverse inverts them)
+        r = gen.g_diag(draw, G, S, zeros=False)
+        v = np.asarray(r['vals'], dtype=float)
+        scales = [draw(st.sampled_from([1e-10, 1e-8, 1e-6, 1e6, 1e8, 1.0])) for _ in range(v.size)]
+        r['vals'] = (v.reshape(-1) * np.asarray(scales)).reshape(v.shape).tolist()
+        if draw(st.booleans()) and v.size > 1:
+            vv = np.asarray(r['vals'], dtype=float)
+            vv.reshape(-1)[0] = 0.0
+            r['vals'] = vv.tolist()
     elif f == 'rot':
         r = gen.g_rot(draw, G, S)
     elif f == 'rotT':
@@ -203,7 +213,7 @@ def check(recipe, mode):
         # A.I.I denotes A
         with ops.quiet_config():
             ii = must_not_raise('inverse-twice', lambda: inv.I)
-        zero_diag = recipe['sub'] == 'diag0'
+        zero_diag = recipe['sub'] == 'diag0' or (recipe['sub'] == 'diag_tiny' and _has_zero_diag(recipe['expr'], defs))
         if not zero_diag and not (recipe['sub'] == 'blockdiag' and _has_zero_diag(recipe['expr'], defs)):
             X.compare_with_den(ii, den, p, 'II-value', max_basis=8)
         # pseudo-inverse stays finite on huge inputs
